@@ -15,13 +15,14 @@ func init() {
 	register("C14", propMeta{
 		Level: "other",
 		Explanation: "R14a (edge facts + caller propagation): the effect set of the write path — stores to Commander.lastTXID / lastLog, Batcher.Append, every bus.Monitor method — is enumerated in package command; for each effect instruction every path from every exported Commander method crosses the false edge of a test of Parameters.DryRun (in the function that contains the effect, or, when that function is unguarded, at every one of its call sites, recursively up to the exported methods). " +
-			"R14b: the preview branch chains a log produced by the same builder value that the real branch hands to the commander, with the id that the next real transaction would get (peek, no store). R14g (a necessary condition of `answers what the real write would answer`): a preview goes through the same replay lookup as the real request — the idempotency key that executionContext.run reserves and searches the store for is Parameters.IdempotencyKey itself on every path, not a value that is empty for previews.",
+			"R14b: the preview branch chains a log produced by the same builder value that the real branch hands to the commander, with the id that the next real transaction would get (peek, no store). R14h: the two readers of the flag (v1 `preview`, v2 `dryRun`, each version's getCommandParameters) are siblings: the sets of values they read as a preview, extracted from their comparisons with constants (raw = exact, ToUpper/ToLower/EqualFold = any case), are equal, and both contain the documented boolean `true`. R14g (a necessary condition of `answers what the real write would answer`): a preview goes through the same replay lookup as the real request — the idempotency key that executionContext.run reserves and searches the store for is Parameters.IdempotencyKey itself on every path, not a value that is empty for previews.",
 		NotDecided:  "equality of later histories as a whole (follows from R14a if the effect set is complete; the set is the frozen list above plus the who-may-write rules of C05).",
 		Trusted:     []string{"the effect set (counters, batcher hand-off, monitor) is what a preview could change; store reads are side-effect free"},
 	}, func(c *Ctx) {
 		ruleR14a(c, "R14a", nil)
 		ruleR14b(c)
 		ruleRequestKeyIsLookedUp(c, "R14g")
+		ruleR14h(c, "R14h")
 	})
 	register("C16", propMeta{
 		Level: "other",
